@@ -189,4 +189,42 @@ def emitSelect (idx : List Nat) (wd : Nat) : List S :=
     .assign (.dest n) (orAll (sl.zipIdx.map fun (b, en) =>
       E.shl (.band (.lit 1) (.shr (.v (.arg 0 (b / 64))) (b % 64))) en))
 
+/-! ### `_build_concat`: the arguments, least significant first, are cut into pieces of at most one limb; the
+pieces are packed into the destination limbs, a piece that crosses a limb boundary being continued in the next limb -/
+
+structure Piece where
+  k : Nat        -- argument index
+  limb : Nat
+  start : Nat    -- first bit of the limb that is still to be placed
+  size : Nat     -- number of bits still to be placed
+deriving Repr
+
+/-- `pieces`: `for a in reversed(args) for lx in range(limbs(a))` -/
+def catPieces (ws : List Nat) : List Piece :=
+  ((ws.zipIdx).reverse.map fun (w, k) =>
+    (List.range (limbs w)).map fun lx => (⟨k, lx, 0, min 64 (w - 64 * lx)⟩ : Piece)).flatten
+
+/-- the inner `while True:` for destination limb `n` (fuel: at most 65 pieces fit one limb) -/
+def catInner (wd n : Nat) : Nat → Nat → List E → Piece → List Piece → List E × Piece × List Piece
+  | 0, _, res, curr, rest => (res, curr, rest)
+  | fuel + 1, dpos, res, curr, rest =>
+    let res' := res ++ [E.shl (.shr (.v (.arg curr.k curr.limb)) curr.start) dpos]
+    let dpos' := dpos + curr.size
+    if dpos' > 64 then (res', ⟨curr.k, curr.limb, 64 - (dpos' - curr.size), dpos' - 64⟩, rest)
+    else if dpos' ≥ wd - 64 * n then (res', curr, rest)
+    else match rest with
+      | [] => (res', curr, [])
+      | nxt :: rest' => if dpos' == 64 then (res', nxt, rest') else catInner wd n fuel dpos' res' nxt rest'
+
+def catOuter (wd cattotal : Nat) : List Nat → Piece → List Piece → List S
+  | [], _, _ => []
+  | n :: ns, curr, rest =>
+    let (res, curr', rest') := catInner wd n 66 0 [] curr rest
+    S.assign (.dest n) (mask wd (some cattotal) n (orAll res)) :: catOuter wd cattotal ns curr' rest'
+
+def emitConcat (ws : List Nat) (wd : Nat) : List S :=
+  match catPieces ws with
+  | [] => []
+  | p :: rest => catOuter wd ws.sum (List.range (limbs wd)) p rest
+
 end Pyrtl.CLimb
